@@ -497,7 +497,7 @@ func (e Expect) Check(o Obs) (aspect, detail string) {
 		if !ok {
 			return "field:" + k, "missing in observation"
 		}
-		match := false
+		match := len(e.F[k]) == 0 // no alternatives listed: any value is acceptable
 		for _, w := range e.F[k] {
 			if w == got {
 				match = true
